@@ -565,7 +565,10 @@ Definition base_checks (s : pspec) (parent : option param) : option exn :=
   else if f_prio fl then Some TypeError
   else match parent with
        | Some (Leaf _ _ _ _ _) => Some TypeError        (* parent not an InputParameterMap *)
-       | _ => if f_ro fl then Some TypeError else None
+       | _ => match s_kind s with
+              | SMap => None                                  (* a map has no read_only argument *)
+              | _ => if f_ro fl then Some TypeError else None
+              end
        end.
 
 Definition first_exn (a b : option exn) : option exn :=
